@@ -704,6 +704,68 @@ CONFIG['C15'] = {'assumptions': ['writers honour io.Writer ("Write must return a
                   'order of the checks inside the four codec bodies and the two JSON option calls: extracted by factgen (go/ast) and pinned by the '
                   'theorems code_shape_facts / json_option_facts']}
 
+CONFIG['C04'] = {'assumptions': ["path values '' '.' '..' are outside the guarantee (stated in the property); so are requests whose built path is also an instance "
+                 'of another operation of the same method that is at least as literal (reading: an ambiguity of the description; the decidable test '
+                 'noRival is evaluated on every case and is a hypothesis of path_round_trip)',
+                 "base paths are '' or start with '/', templates start with '/' (swagger 2.0); static template text consists of bytes that travel "
+                 "unchanged in a URL path (unreserved and sub-delimiters) — other static text is known finding F04b; '%', '?', '#' and the router's "
+                 "':' '*' in static text are outside the generated descriptions (F01c)",
+                 "parameter names: distinct per location in their swag.ToGoName form (go-openapi/analysis keys an operation's parameters by "
+                 "location#GoName) and distinct across locations (the untyped handler's map is keyed by name); header names are HTTP tokens with "
+                 'pairwise distinct canonical forms and differ from the headers the client sets itself (Accept, Content-Type, Content-Length, Host)',
+                 'header values carry no CR/LF and no leading/trailing whitespace (net/http replaces/trims them); scalar parameters are declared '
+                 '`type: string` without validations, repeated values as `type: array, collectionFormat: multi` (binding is then the identity: typed '
+                 'binding is C03)',
+                 'formData parameters are used with POST, PUT, PATCH and DELETE only (runtime.CanHaveBody); an empty body or payload is the absence '
+                 'of a body',
+                 'text and []byte request bodies are consumed by the harness with the consumer the middleware negotiated (the untyped binder can '
+                 'only bind a body into a map); JSON bodies go through the untyped binder'],
+ 'go_entry': 'client.Runtime.Submit -> in-memory RoundTripper (Request.Write, http.ReadRequest, handler into httptest.ResponseRecorder, '
+             'Response.Write, http.ReadResponse) -> middleware.NewContext(doc, untyped API).APIHandler; client and server built from ONE generated '
+             'swagger 2.0 description',
+ 'model_fn': 'serverRoute (C01.dispatch of wirePath of C10.urlPath) / serverValues (GoQuery.parseQuery of GoQuery.encode) + bindDecl / serverHeader '
+             'of wireHeaders of clientHeaders (C14.canon) / identity for the external encodings',
+ 'partial': ['proved: T1+T4 path_round_trip (simple templates), T2 query_round_trip/bound_values (query and urlencoded form), T3 header names '
+             '(canon_idem, header_round_trip), wiring_as_modelled',
+             'correspondence only (external encodings on both sides, modelled as the identity): multipart fields and files, header VALUES over the '
+             "wire, request bodies (-> C15), the response direction: status, header, body through Respond (-> C08) and the client's response adapter "
+             '(-> C13)',
+             'composite path segments (`{a}-{b}`, `v{x}.json`) are generated (1 description in 20) but only the chosen operation is judged for them '
+             '(C01 records the splitting as its own partial)',
+             'non-vacuity of `C05.build … = .ok t` cannot be decided in the kernel (well-founded recursion); accepted tables are evaluated by the '
+             'correspondence stream on every W case'],
+ 'quick_n': 5000,
+ 'rule': 'stream W: generated descriptions (1-3 operations, 4-9 in a quarter of the thorough cases; templates of 1-4 segments over static segments '
+         "{pets store a b x.y mine a-b ~u v1 a;b x=1 (s) a,b $x it's}, whole-segment {name} placeholders, siblings of the first template with one "
+         'segment changed (static<->placeholder: rivals), 1 template in 20 with a trailing slash, 1 description in 20 with composite segments, 1 '
+         "static segment in ~80 that net/url escapes (e-acute, space, quote, <, |: known finding F04b); base paths / '' /api /api/ /v1/base /a; "
+         'methods get post put patch delete options in mixed case), one operation selected; value tuples: path values from {reserved and separator '
+         'bytes / ? # % + space ; { } : * = & ~ .. prefixes, random bytes over an alphabet with NUL, 0xff and UTF-8, numeric boundaries (int64 '
+         "min/max, 2^64, 1e400, 007, NaN), long unreserved strings, texts of static siblings, and '' . .. (1 in 25, the stated exclusion)}; 0-3 "
+         'query keys (names incl. space, &=, ;, +%, [], non-ASCII, the empty name) each scalar or array(multi) with 0-3 values; 0-3 headers '
+         '(mixed-case and lower-case names, 1 in 25 an invalid or colliding name) with values free of CR/LF and outer whitespace; for methods with a '
+         'body one of: urlencoded form, multipart form with 0-2 files (0..1100 bytes, around the 512-byte sniffing buffer, boundary look-alikes; up '
+         'to 70000 in the thorough tier), JSON object body, text body, []byte body, streamed io.Reader body; response status from 17 codes incl. '
+         '204/304, header value, JSON/text/bytes/no body; no auth writer / API-key header writer / a writer that asks for the body. Streams V E / V '
+         'P / V K validate the hand models of url.Values.Encode, url.ParseQuery and http.CanonicalHeaderKey against the real functions. Non-trivial: '
+         'a W case inside the guarantee (admissible path values, no rival) or any V case; distinct = distinct input lines.',
+ 'search_s': 60,
+ 'thorough_n': 30000,
+ 'thorough_seeds': 3,
+ 'trusted_base': ['reading of the property text into the Lean `Spec` (human step, RtVerif/Model/<id>.lean)',
+                  'correspondence check (differential: Go harness /verif/harness -> protocol lines -> compiled Lean driver rtdriver evaluating Model '
+                  'and Spec); coverage bounded by the generators',
+                  "factgen (go/ast extraction of constants/tables into RtVerif/Gen/Facts.lean) and the driver's line parser",
+                  'net/url (PathEscape/PathUnescape/QueryEscape/QueryUnescape, Values.Encode, ParseQuery, validEncoded/EscapedPath) and '
+                  'http.CanonicalHeaderKey are hand-copied models (RtVerif/Base/GoURL.lean, GoQuery.lean, C04.wirePath, C14.canon), validated by '
+                  "C10's stream E (all 256 bytes x both modes) and C04's streams V E, V P, V K and W on every run",
+                  'the sub-models composed here: C10.urlPath (client URL), C01.dispatch + C05 (router; the double array is abstracted as the '
+                  "implicit trie), GoPath.clean/join (validated by C20's stream G)",
+                  "net/http's request/response serialisation (Request.Write, ReadRequest, Response.Write, ReadResponse), mime/multipart, the codecs "
+                  '(JSON/text/bytestream producers and consumers) and go-openapi/loads+analysis+validate are exercised, not modelled: for them the '
+                  'model is the identity and only the correspondence speaks',
+                  'the in-memory wire stands for a TCP connection (no proxies, no HTTP/2)']}
+
 # properties not claimed (with the reason) and hook commits in /repo (none so far: no hooks needed)
 NOT_APPLICABLE = {}
 HOOK_COMMITS = []
